@@ -1,6 +1,7 @@
 import CotengraVerif.Lemmas.SoundRun
 import CotengraVerif.Lemmas.SortOK
 import CotengraVerif.Model.Recipes
+import Mathlib.Algebra.Ring.Int.Defs
 
 /-!
 # C01 — contracting with any tree gives the einsum value, in the declared axis order
@@ -287,5 +288,28 @@ example : Admissible exNet [] exTree
         match s.recipe with
         | .einsum a b o => if s.parent.length == 2 then { s with recipe := .einsum a b (o.take 1) } else s
         | _ => s } = false := by decide
+
+/-! ### a concrete run over `Int`: hypotheses of `admissible_sound` are met, and the kernel
+    evaluates both sides of its conclusion to the same integer -/
+
+def exArr (shape : List Nat) (seed : Int) : Arr Int :=
+  { shape := shape,
+    val := fun idx => (idx.foldl (fun acc v => acc * 3 + (v : Int) + 1) seed) % 5 - 2 }
+
+def exArrays : List (Arr Int) :=
+  [exArr [2, 3] 1, exArr [3, 2, 2] 2, exArr [2, 2, 1, 2] 3, exArr [2, 3] 4]
+
+def valAt (r : Except String (Arr Int)) (idx : List Nat) : Option Int :=
+  match r with
+  | .ok a => some (a.val idx)
+  | .error _ => none
+
+example : WellShaped exNet [] exArrays := ⟨by decide, by decide⟩
+set_option maxRecDepth 100000 in
+example : valAt (run (extract exNet [] exTree.internal false) exArrays) [1, 0] = some 24 ∧
+    exNet.einsumSpec [] (operands exArrays) (assoc ([4, 0].zip [1, 0])) = 24 := by decide
+set_option maxRecDepth 100000 in
+example : valAt (run (extract exNet [] exOrder₂ true) exArrays) [0, 1] =
+    some (exNet.einsumSpec [] (operands exArrays) (assoc ([4, 0].zip [0, 1]))) := by decide
 
 end Cotengra.C01
